@@ -1650,3 +1650,16 @@ std::ostream &rtosc::operator<<(std::ostream &o, rtosc::OscDocFormatter &formatt
     return o;
 }
 
+
+#ifdef RTOSC_VERIF
+//verification hooks: the file-local copies of the type matcher
+extern "C" bool rtosc_verif_arg_matcher(const char *pattern, const char *args)
+{
+    return arg_matcher(pattern, args);
+}
+extern "C" bool rtosc_verif_pm_match_args(const char *pattern, const char *msg)
+{
+    rtosc::Port_Matcher pm(1);
+    return pm.rtosc_match_args(pattern, msg);
+}
+#endif
